@@ -143,7 +143,10 @@ Print Assumptions C15_counted_once.
    the marks the reference preprocessor of Spec/C04.v (textual inclusion, un-memoised
    first-match search over exact paths; this is the S the correspondence compares with)
    records for the canonical configuration on the plain list [cfs] of the tree's
-   regular files - whenever that reference accepts the configuration. *)
+   regular files (exactly those, under their real paths) - whenever that reference
+   accepts the configuration.  The reference world is the one without links, where
+   realpath is lexical normalisation (Model/C04.v [norm] = os.path.abspath): the C15
+   model instantiated with rp := norm is shown to be the C04 model. *)
 Theorem C15_attribution_is_reference :
   forall (root : fnode) (tab_a tab_c : ctable) (cfs : fsys)
          (fuel : nat) (members : list path) (c_a c_c : list (nat * entry)) (ms msS : list mark),
@@ -152,6 +155,7 @@ Theorem C15_attribution_is_reference :
     tab_rel root tab_a tab_c (alldirs root) -> alias_cfg2 root tab_a (alldirs root) c_a c_c ->
     tab_names_ok root tab_c -> canon_cfg root c_c ->
     (forall p, is_real root p = true -> fs_get cfs p = getf_i root tab_c p) ->
+    (forall p ls, fs_get cfs p = Some ls -> is_real root p = true) ->
     Forall (fun fn => In (dirname (rp_i root fn)) (alldirs root)) members ->
     find_A (rp_i root) (getf_i root tab_a) fuel members c_a = Ok ms ->
     analyse_S cfs fuel c_c = Ok msS ->
@@ -163,8 +167,12 @@ Print Assumptions C15_attribution_is_reference.
 Theorem C15_file_list_exists :
   forall (root : fnode) (tab : ctable), wf root -> getf_i root tab [] = None ->
     (forall p, fs_get (fsys_of root tab) p = getf_i root tab p) /\
+    (forall p ls, fs_get (fsys_of root tab) p = Some ls -> is_real root p = true) /\
     (tab_structured tab -> fs_structured (fsys_of root tab)).
-Proof. intros root tab Hwf Hr. split; [apply fs_get_fsys_of; assumption|apply fsys_of_structured]. Qed.
+Proof.
+  intros root tab Hwf Hr. split; [apply fs_get_fsys_of; assumption|].
+  split; [apply fsys_of_real; exact Hwf|apply fsys_of_structured].
+Qed.
 Print Assumptions C15_file_list_exists.
 
 (* Links add nothing: two trees that differ only in their links count the same files. *)
